@@ -63,11 +63,13 @@ enum FaultKind
   FK_SURPLUS,         // proper response followed by surplus bytes
   FK_CONN_CLOSE,      // proper response with Connection: close (server keeps the socket open)
   FK_HTTP10,          // HTTP/1.0 response without keep-alive
+  FK_FRAMING_X,       // full request, one of the malformed responses in FRAMING_X (pos = variant): each is a deterministic
+                      // framing/parse violation of the response, whatever the client calls it internally
   FK_KINDS
 };
 const char *faultName(int k)
 {
-  static const char *n[] = {"ok", "refuse", "blackhole", "rst@req", "fin@req", "rst@resp", "fin@resp", "bad-status", "cl+te", "two-cl", "silence", "surplus", "conn-close", "http10"};
+  static const char *n[] = {"ok", "refuse", "blackhole", "rst@req", "fin@req", "rst@resp", "fin@resp", "bad-status", "cl+te", "two-cl", "silence", "surplus", "conn-close", "http10", "framing-x"};
   return n[k];
 }
 struct Fault
@@ -77,6 +79,23 @@ struct Fault
 };
 
 const std::string RESP_OK = "HTTP/1.1 200 OK\r\nContent-Length: 2\r\n\r\nhi";
+
+struct FramingX
+{
+  const char *name;
+  const char *wire;
+};
+const FramingX FRAMING_X[] = {
+  {"unsupported-version", "HTTP/2.0 200 OK\r\nContent-Length: 2\r\n\r\nhi"},
+  {"status-code-not-numeric", "HTTP/1.1 2x0 OK\r\nContent-Length: 2\r\n\r\nhi"},
+  {"obs-fold", "HTTP/1.1 200 OK\r\nX-A: 1\r\n folded\r\nContent-Length: 2\r\n\r\nhi"},
+  {"header-without-colon", "HTTP/1.1 200 OK\r\nBadHeaderLine\r\nContent-Length: 2\r\n\r\nhi"},
+  {"content-length-garbage", "HTTP/1.1 200 OK\r\nContent-Length: 2x\r\n\r\nhi"},
+  {"content-length-list-differs", "HTTP/1.1 200 OK\r\nContent-Length: 2, 3\r\n\r\nhi!"},
+  {"content-length-empty", "HTTP/1.1 200 OK\r\nContent-Length: \r\n\r\nhi"},
+  {"chunk-size-garbage", "HTTP/1.1 200 OK\r\nTransfer-Encoding: chunked\r\n\r\nzz\r\nhi\r\n0\r\n\r\n"},
+};
+const int N_FRAMING_X = int(sizeof FRAMING_X / sizeof FRAMING_X[0]);
 
 struct Conn
 {
@@ -258,6 +277,10 @@ void serverOnReadable(Server &sv, Conn &c)
       out = "HTTP/1.0 200 OK\r\nContent-Length: 2\r\n\r\nhi";
       c.faulted = true;
       break;
+    case FK_FRAMING_X:
+      out = FRAMING_X[c.fault.pos % N_FRAMING_X].wire;
+      c.faulted = true;
+      break;
     }
     if (!out.empty())
       ::send(c.fd, out.data(), out.size(), 0);
@@ -434,6 +457,8 @@ Fault chooseFault(int menu, int reqLen, bool allPositions)
     f.pos = choosePos(reqLen, allPositions);
   else if (f.kind == FK_RESP_CUT_RST || f.kind == FK_RESP_CUT_FIN)
     f.pos = choosePos(int(RESP_OK.size()) - 1, allPositions);
+  else if (f.kind == FK_FRAMING_X)
+    f.pos = mc_choose(N_FRAMING_X, MC_FREE);
   return f;
 }
 
@@ -500,6 +525,10 @@ void single(bool allPositions, int secondMenu)
   if (idempotent(method) && conns > retries + 1)
     mc_violation("attempt-budget", "more-attempts-than-budget", method + " opened " + std::to_string(conns) + " connections with a retry budget of " + std::to_string(retries) + " (" + plan + ")");
   bool framingFault = f1.kind == FK_MALFORMED_STATUS || f1.kind == FK_CL_AND_TE || f1.kind == FK_TWO_CL;
+  // the malformed-response variants: the statement demands only that they are not retried (a lenient client may accept one)
+  if (f1.kind == FK_FRAMING_X && conns > 1)
+    mc_violation("framing-not-retried", std::string("framing-error-retried:") + FRAMING_X[f1.pos % N_FRAMING_X].name,
+                 "malformed response '" + std::string(FRAMING_X[f1.pos % N_FRAMING_X].name) + "' led to " + std::to_string(conns) + " attempts (" + plan + ")");
   if (framingFault && (conns > 1 || r.ok))
     mc_violation("framing-not-retried", std::string("framing-error-retried-or-accepted:") + faultName(f1.kind), "deterministic framing error '" + std::string(faultName(f1.kind)) + "' led to " + std::to_string(conns) + " attempts, result " + (r.ok ? "ok" : "error") + " (" + plan + ")");
   // bounded wait: every attempt is bounded by connect (100 ms) + request (200 ms) timeouts; back-off sleeps are 1 s each
